@@ -19,6 +19,7 @@ from __future__ import annotations
 import itertools, os
 import numpy as np
 from vt.runner import Shard
+from vt import oracles as O
 
 LEVEL = "exploration"
 RULE = ("cases = (position, omega, y0, ystep, shape) grid points / (position, ny, y0, scan range, pad) reconstructions / job orders, "
@@ -41,6 +42,8 @@ def plan(tier, seed):
     shards.append(("orders",))
     shards.append(("filters", tier))
     shards.append(("grainsino", tier))
+    for c in range(4):
+        shards.append(("grainsino_build", c, 4, tier))
     k = seed % len(shards)
     return shards[k:] + shards[:k]
 
@@ -522,7 +525,102 @@ def _run_grainsino(desc):
     return sh
 
 
+def _run_grainsino_build(desc):
+    """the whole GrainSinogram route on a synthetic point grain: 2-D peaks (g-vectors of 60 distinct hkl, one projection angle each, the
+    peak of each projection split over the two dty bins around the value geometry says brings the grain into the beam) ->
+    prepare_peaks_from_2d -> build_sinogram -> update_lab_position_from_peaks (fit of sx, sy, y0) -> the module's own shift and pad ->
+    recon -> update_lab_position_from_recon.  The sinogram equals the directly built one, the fit returns the position and y0, the
+    reconstruction shows the grain where sample_to_recon predicts (1.5 px) and the position from the image is within 2.5 px."""
+    _, c, nch, tier = desc
+    from ImageD11.sinograms import geometry as G, roi_iradon as R, sinogram as SG, dataset as _dsm
+    from ImageD11 import grain as _grain, columnfile as _cf
+    import io, contextlib
+    sh = Shard()
+    a = 4.0
+    ubi = np.dot(np.eye(3) * a, O.rotation_from_axis_angle((1, 2, 3), 33.0).T)
+    UB = np.linalg.inv(ubi)
+    hkls = [h for h in itertools.product(range(-2, 3), repeat=3) if h != (0, 0, 0)][:60]
+    nproj = len(hkls)
+    gvecs = np.dot(UB, np.array(hkls, float).T)
+    idx = 0
+    for ystep in ((1.0,) if tier == "quick" else (1.0, 0.5, 2.5)):
+        for (px, py) in recon_positions():
+            for ny in (40, 41):
+                for y0s in (0.0, 2.5, -3.3):
+                    for span in (180.0, 360.0):
+                        idx += 1
+                        if idx % nch != c:
+                            continue
+                        sx, sy, y0 = px * ystep, py * ystep, y0s * ystep
+                        ymin = -(ny // 2) * ystep
+                        # projection angles: not in order of hkl, not equally spaced
+                        omega = ((np.arange(nproj) * 37) % nproj) * (span / nproj) + 0.2 * np.sin(np.arange(nproj))
+                        dty = G.dty_values_grain_in_beam(sx, sy, y0, omega)
+                        row = (dty - ymin) / ystep
+                        lo = np.floor(row).astype(int)
+                        w = row - lo
+                        if lo.min() < 0 or lo.max() + 1 >= ny:
+                            sh.count("skipped_grain_leaves_scanned_range")
+                            continue
+                        case = {"kind": "grainsino_build", "sx": sx, "sy": sy, "ny": ny, "y0": y0, "ystep": ystep, "omega_span": span}
+                        # 2-D peaks: two per projection (the neighbouring dty bins), intensity split linearly
+                        cols = {"gx": np.repeat(gvecs[0], 2), "gy": np.repeat(gvecs[1], 2), "gz": np.repeat(gvecs[2], 2),
+                                "omega": np.repeat(omega, 2), "eta": np.full(2 * nproj, 30.0),
+                                "dty": (ymin + np.stack([lo, lo + 1], axis=1) * ystep).ravel().astype(float),
+                                "sum_intensity": (1000.0 * np.stack([1 - w, w], axis=1)).ravel()}
+                        keep = cols["sum_intensity"] > 0
+                        cf2 = _cf.colfile_from_dict({k_: v[keep] for k_, v in cols.items()})
+                        with contextlib.redirect_stdout(io.StringIO()):
+                            ds = _dsm.DataSet(dataroot=".", analysisroot=".", sample="s", dset="d")
+                        ds.ybincens = ymin + np.arange(ny) * ystep
+                        ds.ystep = ystep
+                        gs = SG.GrainSinogram(_grain.grain(ubi.copy()), ds)
+                        gs.prepare_peaks_from_2d(cf2, 5, hkltol=0.05)
+                        gs.build_sinogram()
+                        # direct construction for comparison (columns in ascending angle, each scaled to maximum 1)
+                        order = np.argsort(omega, kind="stable")
+                        want = np.zeros((ny, nproj), np.float32)
+                        for k_, q in enumerate(order):
+                            want[lo[q], k_] += 1 - w[q]
+                            want[lo[q] + 1, k_] += w[q]
+                        want /= want.max(axis=0)[None, :]
+                        if gs.ssino.shape != want.shape or np.abs(gs.ssino - want).max() > 1e-5 or np.abs(gs.sinoangles - omega[order]).max() > 1e-3:
+                            sh.violation("GrainSinogram.build_sinogram:differs-from-direct-construction", case,
+                                         {"shape": list(gs.ssino.shape), "max_diff": float(np.abs(gs.ssino - want).max()) if gs.ssino.shape == want.shape else None})
+                            continue
+                        # position and axis offset from the 4-D peaks (exact dty centroids)
+                        cf4 = _cf.colfile_from_dict({"omega": omega.copy(), "dty": dty.copy(), "grain_id": np.full(nproj, 5)})
+                        gs.update_lab_position_from_peaks(cf4, 5)
+                        if np.abs(gs.grain.translation[:2] - np.array([sx, sy])).max() > 1e-3 * ystep or abs(gs.recon_y0 - y0) > 1e-3 * ystep:
+                            sh.violation("GrainSinogram.update_lab_position_from_peaks:position-or-y0-not-recovered", case,
+                                         {"translation": gs.grain.translation, "y0": float(gs.recon_y0)})
+                            continue
+                        shift, pad = G.sino_shift_and_pad(gs.recon_y0, ny, ymin, ystep)
+                        gs.update_recon_parameters(pad=int(pad), shift=shift)
+                        rec = gs.recon(method="iradon", workers=1)
+                        ri, rj = G.sample_to_recon(sx, sy, rec.shape, ystep)
+                        ci, cj = centroid_of_max(rec)
+                        err = float(np.hypot(ci - ri, cj - rj))
+                        if not np.isfinite(err) or err > 1.5:
+                            sh.violation("reconstruction-not-where-geometry-predicts", case, {"predicted": [float(ri), float(rj)], "found": [ci, cj], "error_px": err})
+                            continue
+                        gs.ds.ystep = ystep
+                        gs.grain.translation = np.array([1e6, 1e6, 0.0])
+                        gs.update_lab_position_from_recon()
+                        if not getattr(gs, "bad_recon", False) and np.abs(gs.grain.translation[:2] - np.array([sx, sy])).max() > 2.5 * ystep:
+                            sh.violation("GrainSinogram.update_lab_position_from_recon:far-from-the-grain", case, {"translation": gs.grain.translation})
+                        sh.counters["max_build_route_error_milli_px"] = max(sh.counters.get("max_build_route_error_milli_px", 0), int(err * 1000))
+                        sh.evaluations += 1
+                        sh.nontrivial += 1
+                        sh.outcomes.add(("build", ny, y0s, span))
+    if sh.evaluations:
+        sh.sample(case, limit=1)
+    return sh
+
+
 def run_shard(desc):
+    if desc[0] == "grainsino_build":
+        return _run_grainsino_build(desc)
     return {"conv": _run_conv, "recon": _run_recon, "linear": _run_linear, "orders": _run_orders, "filters": _run_filters,
             "grainsino": _run_grainsino}[desc[0]](desc)
 
@@ -541,6 +639,9 @@ def replay(case):
         r = _run_orders(("orders",))
     elif kind == "filters":
         r = _run_filters(("filters", "thorough" if len(case["history"]) > 2 else "quick"))
+    elif kind == "grainsino_build":
+        r = _run_grainsino_build(("grainsino_build", 0, 1, "quick" if case["ystep"] == 1.0 else "thorough"))
+        r.violations = [v for v in r.violations if all(v["case"][k] == case[k] for k in ("sx", "sy", "ny", "y0", "omega_span"))]
     elif kind == "grainsino":
         r = _run_grainsino(("grainsino", "thorough" if len(case["shifts"]) > 3 else "quick"))
     else:
